@@ -1,7 +1,7 @@
 #!/usr/bin/env python3
 """selftest.py PID [PID...] : applies every mutants/PID/*.patch to a scratch copy of /repo (outside /repo and /verif),
 runs ./check PID --repo <copy> --no-evidence, and requires a VIOLATION (exit 1).  Prints one line per mutant."""
-import sys, os, subprocess, glob, tempfile, shutil
+import sys, os, subprocess, glob, tempfile, shutil, json
 from concurrent.futures import ThreadPoolExecutor
 HERE = os.path.dirname(os.path.dirname(os.path.abspath(__file__)))
 
@@ -25,21 +25,43 @@ def one(args):
     finally:
         shutil.rmtree(t, ignore_errors=True)
 
-def main():
+def jobs_for(pid):
     jobs = []
+    for patch in sorted(glob.glob(os.path.join(HERE, 'mutants', pid, '*.patch'))):
+        jobs.append((pid, patch))
+    # behaviour-preserving edits: the check must stay silent on these
+    for patch in sorted(glob.glob(os.path.join(HERE, 'equivalents', pid, '*.patch'))):
+        jobs.append((pid, patch))
+    # changes seeded by independent adversaries (see DESIGN.md section 9); only those recorded as caught are required
+    for meta in sorted(glob.glob(os.path.join(HERE, 'seeded', pid, '*', 'meta.json'))):
+        try:
+            m = json.load(open(meta))
+        except Exception:
+            continue
+        patch = os.path.join(os.path.dirname(meta), 'patch.diff')
+        if os.path.exists(patch) and m.get('caught_by_check') is True:
+            jobs.append((pid, patch))
+    return jobs
+
+
+def run_pid(pid, workers=6):
+    """-> list of {patch, status, report}; used by `./check PID --tier thorough`"""
+    out = []
+    with ThreadPoolExecutor(max_workers=workers) as ex:
+        for (p, patch, st, msg) in ex.map(one, jobs_for(pid)):
+            out.append({'patch': os.path.relpath(patch, HERE), 'status': st, 'report': msg})
+    return out
+
+
+def main():
+    bad = n = 0
     for pid in sys.argv[1:]:
-        for patch in sorted(glob.glob(os.path.join(HERE, 'mutants', pid, '*.patch'))):
-            jobs.append((pid, patch))
-        # behaviour-preserving edits: the check must stay silent on these
-        for patch in sorted(glob.glob(os.path.join(HERE, 'equivalents', pid, '*.patch'))):
-            jobs.append((pid, patch))
-    bad = 0
-    with ThreadPoolExecutor(max_workers=6) as ex:
-        for (pid, patch, st, msg) in ex.map(one, jobs):
-            print('%-5s %-40s %-10s %s' % (pid, os.path.basename(patch), st, msg))
-            if not st.startswith('DETECTED') and not st.startswith('SKIPPED') and not st.startswith('SILENT-OK'):
+        for r in run_pid(pid):
+            n += 1
+            print('%-5s %-40s %-10s %s' % (pid, r['patch'].split('/', 2)[-1], r['status'], r['report']))
+            if not r['status'].startswith(('DETECTED', 'SKIPPED', 'SILENT-OK')):
                 bad += 1
-    print('%d mutants, %d not detected' % (len(jobs), bad))
+    print('%d mutants, %d not detected' % (n, bad))
     return 1 if bad else 0
 
 if __name__ == '__main__':
